@@ -57,6 +57,13 @@ def corpus():
     c.append(([("PARTIES", "usize", E("PARTIES", "TOTAL"))], {"PARTIES": {"TOTAL": U(3, "usize")}}, "all", "doc-parties"))
     c.append(([("T", "bool", ("t",)), ("F", "bool", E("PARTY_0", "F")), ("G", "bool", ("id", "F"))],
               {"PARTY_0": {"F": ("f",)}}, "obs", "bools"))
+    # found by an audit sub-agent: one external constant declared at two types (a6255f9)
+    c.append(([("A", "u8", E("PARTY_0", "X")), ("B", "u16", E("PARTY_0", "X"))], {"PARTY_0": {"X": U(7, "u16")}}, "obs", "two-types-u8-u16"))
+    c.append(([("A", "bool", E("PARTY_0", "X")), ("B", "u8", E("PARTY_0", "X"))], {"PARTY_0": {"X": U(1, "u8")}}, "obs", "two-types-bool-u8"))
+    c.append(([("A", "u8", E("PARTY_0", "X")), ("B", "i8", E("PARTY_0", "X"))], {"PARTY_0": {"X": S(-56, "i8")}}, "obs", "two-types-u8-i8"))
+    c.append(([("A", "usize", E("PARTY_0", "X")), ("B", "u32", E("PARTY_0", "X"))], {"PARTY_0": {"X": U(3, "u32")}}, "all", "two-types-usize-u32"))
+    c.append(([("B", "u32", E("PARTY_0", "X")), ("A", "usize", E("PARTY_0", "X"))], {"PARTY_0": {"X": U(3, "usize")}}, "all", "two-types-u32-usize"))
+    c.append(([("A", "u8", E("PARTY_0", "X")), ("B", "u8", ("add", E("PARTY_0", "X"), U(1, "u8")))], {"PARTY_0": {"X": U(7, "u8")}}, "obs", "one-type-twice"))
     # missing party / extra constants
     c.append(([("A", "u8", E("PARTY_0", "A")), ("B", "u8", E("PARTY_1", "B"))], {"PARTY_0": {"A": U(1, "u8")}}, "obs", "missing-party"))
     c.append(([("A", "u8", E("PARTY_0", "A"))], {"PARTY_0": {"A": U(1, "u8"), "Z": ("t",)}, "PARTY_7": {"Q": U(1, "u8")}}, "obs", "extra"))
@@ -207,6 +214,9 @@ def run(ck):
         if det and det[1] != "true":
             ck.violation("the same source and constants give different results in repeated compilations "
                          "(HashMap iteration order)", replay, key="c12-nondeterministic")
+        if G.ext_two_types(m["defs"]) and verdict not in ("check-err", "crash"):
+            ck.violation(f"an external constant declared with two different types is not a type error: {rc[:160]}",
+                         replay, key="c12-one-constant-two-types")
         if m["missing"] or m["mistyped"]:
             # every missing / mistyped constant must be named; never a panic; extra ones ignored
             exp = set()
